@@ -172,6 +172,9 @@ pub fn install_panic_hook() {
             .location()
             .map(|l| format!("{}:{}", l.file(), l.line()))
             .unwrap_or_default();
+        // a panic located in the simulator's own sources is a harness error, never a verdict
+        let internal = info.location().map_or(false, |l| l.file().starts_with("src/") && !l.file().contains("/crates/"));
+        let msg = if internal && !msg.starts_with("GDSIM:") { format!("GDSIM:internal: {msg}") } else { msg };
         let func = if msg.starts_with("GDSIM:") {
             String::new()
         } else {
